@@ -71,8 +71,8 @@ def periodic_pairwise_euclidean_distances(
     array([[0.3],
            [0.3]])
     """
-    _check_dimension(X, cell_length)
     X, Y = check_pairwise_arrays(X, Y)
+    _check_dimension(X, cell_length)
 
     if cell_length is None:
         return _euclidean_distances(X, Y, squared=squared)
